@@ -1737,6 +1737,11 @@ func (p *parser) parseSimpleStmt(mode int) (ast.Stmt, bool) {
 			values = p.parseRhsList()
 		}
 
+		if len(idents) == 0 {
+			// the error was reported above; a ValueSpec without names has no extent
+			return &ast.BadStmt{From: x[0].Pos(), To: p.pos}, false
+		}
+
 		// Go spec: The scope of a constant or variable identifier declared inside
 		// a function begins at the end of the ConstSpec or VarSpec and ends at
 		// the end of the innermost containing block.
